@@ -149,3 +149,162 @@ def check_month_carry(ctx, rule, func, region_func, sink_pred, seeds_for, months
     ctx.ob(rule, func, what, not bad, construct="month/year at %s" % sink_src,
            detail="" if not bad else "month %d shifted by %+d: month=%r year=%r, expected month %d and year Y%+d (%d of %d classes differ)" % (bad[0] + (len(bad), n)),
            analysis="constant propagation over a finite partition (month x shift)")
+
+
+# ------------------------------------------------------------------ sign tables
+def _blocks(fnode):
+    """Every statement list of a function with its owner statement."""
+    out = []
+
+    def rec(body):
+        out.append(body)
+        for st in body:
+            if isinstance(st, (ast.FunctionDef, ast.ClassDef, ast.AsyncFunctionDef)):
+                continue
+            for fld in ("body", "orelse", "finalbody"):
+                sub = getattr(st, fld, None)
+                if isinstance(sub, list) and sub:
+                    rec(sub)
+            for h in getattr(st, "handlers", []) or []:
+                rec(h.body)
+    rec(fnode.body)
+    return out
+
+
+def _contains(st, node):
+    return any(x is node for x in ast.walk(st))
+
+
+def sign_variables(fnode):
+    """Local names every assignment of which is the constant +1 or -1 (a sign factor)."""
+    vals = {}
+    for n in walk_local(fnode):
+        if isinstance(n, ast.Assign):
+            for t in n.targets:
+                if isinstance(t, ast.Name):
+                    v = n.value
+                    ok = False
+                    if isinstance(v, ast.UnaryOp) and isinstance(v.op, (ast.USub, ast.UAdd)):
+                        v = v.operand
+                    if isinstance(v, ast.Constant) and v.value == 1 and not isinstance(v.value, bool):
+                        ok = True
+                    vals.setdefault(t.id, []).append(ok)
+                elif isinstance(t, (ast.Tuple, ast.List)):
+                    for x in ast.walk(t):
+                        if isinstance(x, ast.Name):
+                            vals.setdefault(x.id, []).append(False)
+        elif isinstance(n, (ast.AugAssign, ast.For, ast.With)):
+            for x in ast.walk(getattr(n, "target", None) or ast.Pass()):
+                if isinstance(x, ast.Name):
+                    vals.setdefault(x.id, []).append(False)
+    return set(k for k, v in vals.items() if v and all(v))
+
+
+def sign_cases(ctx, rule, func, sink_pred, value_of, ignore_atoms=()):
+    """{(sink label, class, sign)}: for each sink (an effect selected by sink_pred) the sign of its value's normal form per
+    class of the sign character: 'plus' (X == '+'), 'minus' (X == '-', or not '+' while X in ('+', '-')), 'bare' (X not in
+    ('+', '-')), 'any'.  The region analysed is the smallest block holding the sink and every assignment of the sign
+    variables it reads; facts holding at the region's start are added to each path."""
+    from . import summ
+    from .linform import poly
+    cfg = ctx.cfg(func)
+    facts = ctx.facts(func)
+    svars = sign_variables(func.node)
+    out = set()
+    n_sinks = 0
+    blocks = _blocks(func.node)
+    # sink statements: innermost simple statements containing a matching call / store
+    for st in [x for x in walk_local(func.node) if isinstance(x, (ast.Assign, ast.AugAssign, ast.Expr, ast.Return))]:
+        probe = summ.Summariser([st], func.qualname).run()
+        hits = [ef for p in probe for ef in p.effects if sink_pred(ef)]
+        if not hits:
+            continue
+        used = set(x.id for x in ast.walk(st) if isinstance(x, ast.Name) and x.id in svars)
+        if not used:
+            continue
+        n_sinks += 1
+        from .cfg import ReachingDefs
+        rd = ReachingDefs(cfg, params=func.params)
+        defs = []
+        for sn in cfg.nodes_of(st):
+            for nm in used:
+                for d in rd.at(sn, nm):
+                    if d and cfg.nodes[d].ast is not None and cfg.nodes[d].ast not in defs:
+                        defs.append(cfg.nodes[d].ast)
+        best = None
+        for b in blocks:
+            idx_sink = [i for i, s_ in enumerate(b) if _contains(s_, st)]
+            if not idx_sink:
+                continue
+            idx_defs = [[i for i, s_ in enumerate(b) if _contains(s_, d)] for d in defs]
+            if any(not i for i in idx_defs):
+                continue
+            lo = min(min(i) for i in idx_defs)
+            hi = idx_sink[0]
+            if lo > hi:
+                continue
+            if best is None or len(ast.dump(ast.Module(body=b[lo:hi + 1], type_ignores=[]))) < best[0]:
+                best = (len(ast.dump(ast.Module(body=b[lo:hi + 1], type_ignores=[]))), b[lo:hi + 1])
+        if best is None:
+            raise AnalysisError(rule, func.qualname, "no block holds the sign assignments and their use `%s`" % stmt_text_ast(st))
+        region = best[1]
+        start_nodes = cfg.nodes_of(region[0])
+        pre = set()
+        for sn in start_nodes:
+            for t, tv in facts.at(sn):
+                try:
+                    pre.add(summ.atom_of(t, tv))
+                except SyntaxError:
+                    pass
+        for p in summ.paths_of(region, qualname=func.qualname):
+            for ef in p.effects:
+                if not sink_pred(ef) or not _contains_effect(st, ef):
+                    continue
+                v = value_of(ef)
+                try:
+                    pl = poly(v)
+                except Exception:
+                    pl = {}
+                coeffs = [c for m, c in pl.items() if not any((ignore_atoms(a) if callable(ignore_atoms) else a in ignore_atoms) for a in m)]
+                sign = "0" if not coeffs else ("+1" if all(c > 0 for c in coeffs) else ("-1" if all(c < 0 for c in coeffs) else "mixed"))
+                conds = set(p.conds) | pre
+                out.add((_sink_label(ef), _sign_class(conds), sign))
+    return out, n_sinks
+
+
+def _contains_effect(st, ef):
+    k, t, e = ef
+    # effects carry substituted copies; match on the effect's position
+    ln = getattr(e, "lineno", None)
+    return ln is None or (st.lineno <= ln <= getattr(st, "end_lineno", st.lineno))
+
+
+def _sink_label(ef):
+    k, t, e = ef
+    return "%s %s" % (k, t)
+
+
+def stmt_text_ast(st):
+    return src(st).split("\n")[0][:80]
+
+
+def _sign_class(conds):
+    plus = minus = tup = None
+    for a, tv in conds:
+        if a[0] == "==" and "'+'" in (a[1], a[2]):
+            plus = tv
+        elif a[0] == "==" and "'-'" in (a[1], a[2]):
+            minus = tv
+        elif a[0] == "in" and "'+'" in a[2] and "'-'" in a[2] and a[2].startswith("("):
+            tup = tv
+    if plus is True or (minus is False and tup is True):
+        return "plus"
+    if minus is True or (plus is False and tup is True):
+        return "minus"
+    if tup is False:
+        return "bare"
+    if plus is False:
+        return "notplus"
+    if minus is False:
+        return "notminus"
+    return "any"
